@@ -109,12 +109,16 @@ Tiling(s) == ~Unclosed(s) /\ s # <<>> =>
 -----------------------------------------------------------------------------
 (* Built-in functions env / envInt (docs/META.md): outcome as a function of the state of   *)
 (* the variable and the presence of a default.                                             *)
-EnvStates == {"unset", "empty", "num", "text"}
+(* classes of values of a set variable: what strconv.Atoi (the documented envInt) accepts is an optional sign and decimal   *)
+(* digits that fit an int - leading zeros are decimal, no base prefixes, underscores, spaces, fractions                     *)
+AtoiOk  == {"num", "lead0", "nine", "neg", "plus"}
+AtoiBad == {"empty", "text", "hex", "octal", "binary", "under", "space", "trail", "big", "float", "exp"}
+EnvStates == {"unset"} \cup AtoiOk \cup AtoiBad
 EnvOutcome(fn, state, hasDefault) ==
   CASE fn = "env" ->
          (IF state = "unset" THEN (IF hasDefault THEN "default" ELSE "error") ELSE "value")
     [] fn = "envInt" ->
          (CASE state = "unset" -> (IF hasDefault THEN "default" ELSE "error")
-            [] state = "num"   -> "value"
-            [] OTHER           -> "error")          \* set but not a number (the empty string included): cast error
+            [] state \in AtoiOk -> "value"
+            [] OTHER           -> "error")          \* set but not a decimal number (the empty string included): cast error
 =============================================================================
